@@ -124,7 +124,7 @@ func isFlagSet(fs *flag.FlagSet, name string) bool {
 }
 
 // isolate: second pass after a memory runaway (see engine.go). Every suspect is run alone in a child process
-// (`replay -nomodel`, 20 s per-case watchdog, 6 GB memory guard, 60 s overall); a child that is killed, times out, or
+// (`replay -nomodel`, 90 s per-case watchdog, 6 GB memory guard, 150 s overall); a child that is killed, times out, or
 // reports violations makes its case a violation of the property under check.
 func isolate(comp, partial, out string) {
 	var res Result
@@ -152,10 +152,10 @@ func isolate(comp, partial, out string) {
 			sem <- struct{}{}
 			defer func() { <-sem }()
 			cj, _ := json.Marshal(cs)
-			ctx, cancel := context.WithTimeout(context.Background(), 60*time.Second)
+			ctx, cancel := context.WithTimeout(context.Background(), 150*time.Second)
 			defer cancel()
 			cmd := exec.CommandContext(ctx, exe, "replay", comp, "-case", string(cj), "-nomodel", "-out", "-")
-			cmd.Env = append(os.Environ(), "VERIF_NO_ISOLATE=1", "VERIF_CASE_TIMEOUT=20", "VERIF_MEM_LIMIT_GB=6")
+			cmd.Env = append(os.Environ(), "VERIF_NO_ISOLATE=1", "VERIF_CASE_TIMEOUT=90", "VERIF_MEM_LIMIT_GB=6")
 			o, err := cmd.Output()
 			var r Result
 			if err != nil || json.Unmarshal(o, &r) != nil {
@@ -184,7 +184,7 @@ func isolate(comp, partial, out string) {
 		}
 	}
 	res.Notes = append(res.Notes, fmt.Sprintf("isolate: %d suspects re-run alone, %d of them failed", len(res.Suspects), culprits))
-	if culprits == 0 {
+	if culprits == 0 && res.Extra["runaway"] == "1" {
 		// the runaway happened but no single case reproduces it: still not a clean run
 		res.NViolations++
 		res.Violations = append(res.Violations, Violation{Component: comp, Property: "*", Clause: "runaway-in-" + comp,
